@@ -255,6 +255,10 @@ def gen_case(tape, tier):
             case["output_fns"] = output_fns
         if tape.coin(0.3, "repeat-part"):
             case["repeat_part"] = tape.choose(len(parts), "which-part")
+        if executor["kind"] == "sequential" and tape.coin(0.25, "cached-pipeline"):
+            # every function is cached (each part uses a new Pipeline object with a cold cache); the object that ran the
+            # last part then runs the whole job once more into a fresh folder: a result cache must never stand in for storing
+            case["cache_type"] = tape.pick(["simple", "lru"], "cache-type")
         if not output_fns and any(isinstance(v, int) and v < 0 for p_ in parts for v in p_.values()) and tape.coin(0.5, "reuse"):
             # the caller keeps its request objects and uses the very same dicts again on a data set whose
             # partitioned axes are one longer: -1 must then mean the new last element
@@ -296,6 +300,10 @@ def simplify(case):
         if case.get("repeat_part") is not None:
             c = copy.deepcopy(case)
             del c["repeat_part"]
+            yield c
+        if case.get("cache_type"):
+            c = copy.deepcopy(case)
+            del c["cache_type"]
             yield c
         if isinstance(case["config"]["storage"], dict):
             for s in sorted(set(case["config"]["storage"].values())):
@@ -517,10 +525,18 @@ def _run_parts(case, w, ref, folder, process, V, probes, w_full=None):
         storage = next(iter(storage.values()))  # per-output storage dicts are keyed by outputs that may not run
     seen_calls = collections.Counter()
     done = []
+    last_pipeline = [None]
     requests = [_fx(part) for part in case["parts"]]  # the caller's own request objects
     for pi, part in enumerate(case["parts"]):
         def go(sim, part=part, pi=pi):
-            p = build_pipeline(w_full)
+            if case.get("cache_type"):
+                # a process-local cache: the object outlives the simulated process that created it (a shared one would
+                # hold proxies of that process's manager)
+                p = build_pipeline(w_full, cached={fd["name"] for fd in w_full["functions"]}, cache_type=case["cache_type"],
+                                   cache_kwargs=None if case["cache_type"] == "simple" else {"shared": False})
+                last_pipeline[0] = p
+            else:
+                p = build_pipeline(w_full)
             executor, parallel = C.make_executor(sim, cfg["executor"])
             res = p.map(build_inputs(w), run_folder=folder, parallel=parallel, executor=executor,
                         storage=storage, fixed_indices=requests[pi], cleanup=False, persist_memory=True,
@@ -608,6 +624,23 @@ def _run_parts(case, w, ref, folder, process, V, probes, w_full=None):
         V("parts", "stored-data-differs-from-whole-run", {"output": bad, "got": repr(L[bad])[:300], "ref": repr(ref.R0[bad])[:300]})
     if sum(seen_calls.values()) == sum(ref.C0.values()):
         probes["all_elements_exactly_once"] = 1
+    if last_pipeline[0] is not None and not extra:
+        folder2 = folder + "-again"
+
+        def again(sim):
+            res = last_pipeline[0].map(build_inputs(w), run_folder=folder2, parallel=False, storage=storage,
+                                       persist_memory=True, **map_kwargs(w))
+            return {o: canon(res[o].output) for o in all_outputs(w)}, {o: canon(load_outputs(o, run_folder=folder2)) for o in all_outputs(w)}
+
+        got2, err, _sim2 = process(again)
+        probes["cached_pipeline_object_runs_again_in_fresh_folder"] = 1
+        if err is not None:
+            V("parts", f"second-folder-run-raised:{type(err).__name__}", {"exc": repr(err)[:300]}, {"frame": _frame(err)})
+        elif got2[0] != ref.R0 or got2[1] != ref.R0:
+            which = 0 if got2[0] != ref.R0 else 1
+            bad = next(o for o in ref.R0 if got2[which][o] != ref.R0[o])
+            V("parts", "second-folder-run-differs:" + ("result" if which == 0 else "stored"),
+              {"output": bad, "got": repr(got2[which][bad])[:300], "ref": repr(ref.R0[bad])[:300]})
     if case.get("reuse_on_longer") and not extra:
         _reuse_requests(case, w, requests, folder + "-longer", process, V, probes, storage, cfg)
 
